@@ -1179,6 +1179,28 @@ def install_shims():
         setattr(np, which, new)
         autoray.register_function("numpy", which, new)
 
+    # --- elementwise functions on object arrays that mix symbolic terms with plain Python numbers (int has no .sqrt())
+    def _elementwise(fname, orig):
+        import cmath
+
+        plain = {"sqrt": lambda v: cmath.sqrt(v) if (isinstance(v, complex) or v < 0) else math.sqrt(v), "cos": lambda v: cmath.cos(v) if isinstance(v, complex) else math.cos(v),
+                 "sin": lambda v: cmath.sin(v) if isinstance(v, complex) else math.sin(v), "exp": lambda v: cmath.exp(v) if isinstance(v, complex) else math.exp(v)}[fname]
+
+        def f(x, *a, **k):
+            if isinstance(x, np.ndarray) and x.dtype == object:
+                out = np.empty(x.shape, dtype=object)
+                xi, oi = x.ravel(), out.reshape(-1)
+                for i in range(xi.size):
+                    v = xi[i]
+                    oi[i] = getattr(v, fname)() if isinstance(v, SymC) else plain(v.item() if hasattr(v, "item") else v)
+                return out if x.ndim else out.reshape(())
+            return orig(x, *a, **k)
+
+        return f
+
+    for fname in ("sqrt", "cos", "sin", "exp"):
+        autoray.register_function("numpy", fname, _elementwise(fname, getattr(np, fname)))
+
     # --- autoray astype on object arrays
     try:
         autoray.register_function("numpy", "astype", lambda x, dtype, **k: x if symbolic(x) else np.asarray(x).astype(dtype))
